@@ -26,6 +26,13 @@ section facts
 @[simp] theorem f_listc : listContainers_guardDegraded = true := rfl
 @[simp] theorem f_cinfo : containerInfo_guardDegraded = true := rfl
 @[simp] theorem f_locked : isLocked_guardDegraded = true := rfl
+/-- the flush loop is started by `Init` only: `Open` after `Close` (engine maintenance cycle) and `SetMode` do not
+start it -/
+@[simp] theorem f_wcInit : wcInit_startsFlushLoop = true := rfl
+@[simp] theorem f_wcOpen : wcOpen_startsFlushLoop = false := rfl
+@[simp] theorem f_wcSetMode : wcSetMode_startsFlushLoop = false := rfl
+/-- `Shard.Open` opens the components and does nothing else: no `Init`, no mode switch -/
+@[simp] theorem f_shardOpen : shardOpen_initsOrSetsMode = false := rfl
 
 /-- read-write is not a read-only mode; the two read-only modes (and `Disabled`) are -/
 theorem modes_table :
@@ -56,6 +63,7 @@ injected component failures (those belong to C43) -/
 def Op.staysRO : Op → Bool
   | .setMode m f => isReadOnly m && f == .none
   | .restart _ => false
+  | .reopen => false   -- opens the components for writing: the period continues as `ROQuiet` (Props/C14)
   | _ => true
 
 theorem foldl_fixed {α β : Type} (f : α → β → α) (a : α) (h : ∀ b, f a b = a) : ∀ l : List β, l.foldl f a = a := by
@@ -582,9 +590,9 @@ theorem handleEpoch_cfg (s : St) (e : Nat) : (handleEpoch s e).cfg = s.cfg := by
         · rfl
     · rfl
 
-/-- operations other than a mode switch or a restart -/
+/-- operations other than a mode switch, a restart or a close/open cycle -/
 def Op.isSwitch : Op → Bool
-  | .setMode .. | .restart _ => true
+  | .setMode .. | .restart _ | .reopen => true
   | _ => false
 
 /-- **Only a mode switch changes modes**: every other operation, background jobs included, leaves the reported mode
@@ -602,6 +610,7 @@ theorem step_cfg (s : St) (o : Op) (ho : o.isSwitch = false) : (step s o).1.cfg 
   case gc => exact removeGarbage_cfg s
   case epoch e => exact handleEpoch_cfg s e
   case restore cn hs => exact restore_cfg s cn hs
+  case settle => exact flushTick_cfg s
 
 theorem consistent_of_cfg (s t : St) (h : t.cfg = s.cfg) (hc : Consistent s) : Consistent t := by
   simp only [St.cfg, Prod.mk.injEq] at h
